@@ -11,6 +11,7 @@ THEOREMS = [
     "C17.export_each_edge_once", "C17.cycle_refused",
     "C17.list_export_each_edge_once", "C17.dict_export_each_edge_once", "C17.rows_export_each_edge_once",
     "C17.list_cycle_refused", "C17.dict_cycle_refused", "C17.rows_cycle_refused", "C17.list_acyclic_accepted",
+    "C17.all_attrs_exported",
 ]
 PROOF_IMPORTS = ["BigtreeProofs.Properties.C17"]
 RULE = ("round-trip cases: a weakly connected DAG with >=1 edge (edges in construction order, added through random "
@@ -212,7 +213,7 @@ def gen(rng: random.Random, tier: str):
     nc = 400 if tier == "quick" else 4000
     for _ in range(nc):
         fmt = rng.choice(FORMATS)
-        kind = rng.choice(["valid", "valid", "dup", "multi", "cyclic", "cyclic", "self"] + (["conflict"] if fmt == "rows" else []))
+        kind = rng.choice(["valid", "valid", "valid", "dup", "dup", "multi", "multi", "cyclic", "cyclic", "self"] + (["conflict"] if fmt == "rows" else []))
         cases.append(_random_cons(rng, fmt, kind, ("random",)))
     return cases
 
@@ -514,7 +515,21 @@ def shrink(case):
         yield Case(_line(nd), nd, case.tags)
 
 
-NOT_READY = True
-LEVEL_TEXT = ""
-LEVEL_NOTE = ""
-TECHNIQUE = ""
+NOT_READY = False
+LEVEL_TEXT = ("proof: export completeness, the three round trips (edge set, node names, attributes) and cycle refusal are Lean "
+              "theorems about the executable model of the exporters / constructors (BigtreeModel/Dag.lean) for every weakly "
+              "connected well-formed DAG with at least one edge and every attribute selection; pandas is modelled as a list of "
+              "rows and exercised for real on every DataFrame case of the correspondence check")
+LEVEL_NOTE = ("export_each_edge_once: the pairs read off each export are a permutation of the edge list; dict keys / frame names "
+              "are exactly the node names; list/dict/rows_roundtrip: the matching constructor succeeds on the export and yields a "
+              "well-formed DAG with the same edges and node names, dict/rows also the same attribute values (per key lookup; a null "
+              "cell reads back as 'no attribute'); cycle_refused: every relation with a directed cycle is refused with TreeError "
+              "(for frames possibly by the earlier ValueError of the duplicate-attribute check), and list_acyclic_accepted: "
+              "non-empty acyclic relations are accepted and stored exactly. Rests on the tie: pandas behaviour (column order, NaN "
+              "for missing, drop_duplicates, int->float promotion), dag.copy() being structure-preserving, attr_dict key "
+              "collisions with the parent key (not generated). An isolated single node exports to an empty list/dict/frame: "
+              "outside the claim (the docstring says a DAG needs two nodes)")
+TECHNIQUE = ("Lean 4 proof: corollaries of C16 (dag_iterator yields every edge once) + constructor lemma (adding pairs through "
+             "child.parents=[parent] stores exactly the acyclic relation, first cycle-closing pair raises) + association-list "
+             "lemmas for attributes; differential correspondence check through real pandas with shuffled edge orders, attributes, "
+             "renaming attr_dicts, duplicate and cyclic relations; model-free oracle (edge multiset, names, attributes, refusal iff cycle)")
